@@ -500,6 +500,15 @@ def _inline_site(f, call, g):
         host = s0
     elif s0["kind"] in ("CStyleCastExpr", "ParenExpr") and _first_evaluated_call(s0) is call:
         host = s0
+    elif core["kind"] == "CallExpr" and core is not call:
+        # outer(a, helper(b), c) as a statement, the other arguments (and the callee) free of calls and side effects:
+        # evaluating the helper first changes nothing
+        args = kids(core)[1:]
+        mine = [a_ for a_ in args if strip(a_, casts=True) is call or any(x is call for x in walk(a_))]
+        others = [a_ for a_ in args if a_ not in mine]
+        if len(mine) == 1 and _first_evaluated_call(mine[0]) is call and all(_pure_expr(a_) for a_ in others) and \
+                _pure_expr(kids(core)[0]):
+            host = s0
     if host is None:
         return False
     inst = _instantiate(g, call, True)
